@@ -142,7 +142,7 @@ def dates():
     out = []
     for k in range(-4, 12):
         d = BASE + 3 * DAY + k * DAY
-        for t in (timedelta(0), NOON, timedelta(hours=23, minutes=59, seconds=59)):
+        for t in (timedelta(0), NOON, timedelta(hours=23, minutes=59, seconds=59), timedelta(microseconds=250)):
             out.append(d + t)
     return out
 
@@ -253,7 +253,8 @@ def _work(chunk):
 
 
 def search(e, cal, res, acc):
-    starts = [BASE + 3 * DAY + k * DAY + t for k in range(-2, 10, 1) for t in (timedelta(0), timedelta(hours=9, minutes=30))]
+    starts = [BASE + 3 * DAY + k * DAY + t for k in range(-2, 10, 1)
+              for t in (timedelta(0), timedelta(hours=9, minutes=30), timedelta(microseconds=250))]
     for s in starts:
         for direction in (1, -1):
             for md in (0, 1, 2, 3, 7, 30):
@@ -450,8 +451,8 @@ def run(rep):
         'evaluations': c['lookups'] + c['searches'] + c['constructor_cases'],
         'distinct_nontrivial': c['nontrivial'],
         'rule': f'all calendar expressions of nesting depth <= {_DEPTH} over {len(LEAVES)} leaves, 3 scalars and 5 operators, plus every weekly/fixed '
-                f'leaf variant (day sets x units x 7 validity windows), each evaluated on 48 instants (16 days x 3 times of day) against the '
-                f'reference evaluator; availability search from 24 starts x 2 directions x 6 horizons; 13 illegal definitions. non-trivial = '
+                f'leaf variant (day sets x units x 7 validity windows), each evaluated on 64 instants (16 days x 4 times of day incl. 250 microseconds past midnight) against the '
+                f'reference evaluator; availability search from 36 starts x 2 directions x 6 horizons; 13 illegal definitions. non-trivial = '
                 f'distinct expressions with at least one none/zero value in the window, plus the constructor cases',
         'expressions': c['expressions'], 'lookups': c['lookups'], 'searches': c['searches'],
         'skipped_division_by_zero_valued_calendar': c['skipped_division_by_zero_valued_calendar'],
